@@ -43,6 +43,29 @@ def _patch_recorders():
         rec._balm_orig = orig
         return rec
 
+    def wrapclean(orig):
+        # verdicts of the motif-avoidant check of block expansion: candidate / seed queries on component sub-diagrams
+        def rec(self, *a, **k):
+            main = _block_main[0]
+            if main is None or self is main or _clean_depth[0] > 0:
+                return orig(self, *a, **k)
+            _clean_depth[0] += 1
+            try:
+                r = orig(self, *a, **k)
+            except RuntimeError:
+                _clean.append(False)
+                raise
+            finally:
+                _clean_depth[0] -= 1
+            _clean.append(len(r) == 0)
+            return r
+
+        rec._balm_orig = orig
+        return rec
+
+    for meth in ("node_attractor_candidates", "node_attractor_seeds"):
+        if not hasattr(getattr(sdm.SuccessionDiagram, meth), "_balm_orig"):
+            setattr(sdm.SuccessionDiagram, meth, wrapclean(getattr(sdm.SuccessionDiagram, meth)))
     if not hasattr(ac.compute_fixed_point_reduced_STG, "_balm_orig"):
         ac.compute_fixed_point_reduced_STG = wrapfp(ac.compute_fixed_point_reduced_STG)
     if not hasattr(ems.trappist, "_balm_orig"):
@@ -54,6 +77,13 @@ def _patch_recorders():
 
 _calls = [0]
 _fail_at = [None]
+_block_main = [None]
+_clean_depth = [0]
+_clean = []
+
+
+def blockx_cmd(maa, opt, sz):
+    return f"BLOCKX {1 if maa else 0} {1 if opt else 0} {fmt(sz)} " + " ".join("1" if c else "0" for c in _clean)
 
 
 class Injected(RuntimeError):
@@ -233,14 +263,25 @@ def apply_op(sd, ni, op):
             r = sd.expand_attractor_seeds(size_limit=op[1])
             return str(bool(r)).lower(), None
         if kind == "block":
-            r = sd.expand_block(find_motif_avoidant_attractors=bool(op[1]), size_limit=op[2],
-                                optimize_source_nodes=False)
-            # without the motif-avoidant check the traversal is a function of the diagram: modelled (Impl.expandBlock)
-            return str(bool(r)).lower(), (None if op[1] else f"BLOCK {fmt(op[2])}")
+            _block_main[0] = sd
+            del _clean[:]
+            try:
+                r = sd.expand_block(find_motif_avoidant_attractors=bool(op[1]), size_limit=op[2],
+                                    optimize_source_nodes=False)
+            finally:
+                _block_main[0] = None
+            # without the motif-avoidant check the traversal is a function of the diagram (Impl.expandBlock, proved to keep
+            # the strict invariant); with it, the verdicts of the check are replayed from the transcript (Impl.expandBlockX)
+            return str(bool(r)).lower(), (blockx_cmd(True, False, op[2]) if op[1] else f"BLOCK {fmt(op[2])}")
         if kind == "blockx":
-            r = sd.expand_block(find_motif_avoidant_attractors=bool(op[1]), size_limit=op[2],
-                                optimize_source_nodes=bool(op[3]), exact_attractor_detection=bool(op[4]))
-            return str(bool(r)).lower(), None
+            _block_main[0] = sd
+            del _clean[:]
+            try:
+                r = sd.expand_block(find_motif_avoidant_attractors=bool(op[1]), size_limit=op[2],
+                                    optimize_source_nodes=bool(op[3]), exact_attractor_detection=bool(op[4]))
+            finally:
+                _block_main[0] = None
+            return str(bool(r)).lower(), blockx_cmd(op[1], op[3], op[2])
         if kind == "scc":
             r = sd.expand_scc(find_motif_avoidant_attractors=bool(op[1]))
             return str(bool(r)).lower(), None
@@ -346,6 +387,10 @@ def _cmd_for_error(sd, ni, op, n):
         return f"EXPAND {op[1] % n}"
     if kind == "block" and not op[1]:
         return f"BLOCK {fmt(op[2])}"
+    if kind == "block":
+        return blockx_cmd(True, False, op[2])
+    if kind == "blockx":
+        return blockx_cmd(op[1], op[3], op[2])
     if kind == "bfs":
         return f"BFS {op[1] % n} {fmt(op[2])} {fmt(op[3])}"
     if kind == "dfs":
